@@ -25,7 +25,7 @@ CONFIG = {
         "quick_n": 20000, "thorough_n": 400000, "thorough_seeds": 4, "search_s": 60,
         "model_fn": "parseAccept / negotiateContentType / negotiateContentEncoding",
         "go_entry": "header.ParseAccept, middleware.NegotiateContentType, middleware.NegotiateContentEncoding",
-        "rule": "grammar-based Accept/Accept-Encoding header lines (1-3 lines, 1-4 ranges each, parameters before/after q, q with 0-80 digits, odd whitespace, noise bytes) x offer lists (0-4, duplicates, parameters) x default; streams P (parse, q compared as IEEE bit pattern), N (content type), E (encoding). A case is non-trivial when the header parses to at least one range and there is at least one offer; distinct = distinct input lines.",
+        "rule": "grammar-based Accept/Accept-Encoding header lines (1-3 lines, 1-4 ranges each, parameters before/after q, q with 0-80 digits, odd whitespace, noise bytes) x offer lists (0-4, duplicates, parameters) x default; streams P (parse, q compared as IEEE bit pattern), N (content type), E (encoding), T (a TEST of totality: ParseAccept2, ParseList, ParseValueAndParams, ParseTime, Copy return on the same lines without panicking). A case is non-trivial when the header parses to at least one range and there is at least one offer; distinct = distinct input lines.",
         "trusted_base": COMMON_TB + [
             "float64: the model's q-values are exact decimals; that Go's float64 q (n/d with n,d < 10^15, plus 0 or 1) orders like the decimal is assumed and checked per case by recomputing the IEEE value in the driver (Lean Float, not kernel-checked)",
             "net/http header map access (header[key]) is modelled as the list of header lines",
@@ -1025,6 +1025,11 @@ CONFIG['C20'] = {'assumptions': ['requests are built in-process with an arbitrar
 
 # properties not claimed (with the reason) and hook commits in /repo (none so far: no hooks needed)
 # built but not yet claimed (with the reason shown in MANIFEST.not_applicable)
+CONFIG['C03']['rule'] += (' Stream V (1 case in 20): the exported readers runtime.ReadSingleValue / ReadCollectionValue (request.go) over '
+                          'runtime.Values and middleware.RouteParams: 0-4 key/value pairs with repeated and differently-cased keys x 8 collection '
+                          'formats; model readSingle / readCollection (last occurrence, then swag.SplitByFormat), theorem readSingle_is_last_occurrence.')
+CONFIG['C01']['rule'] += ' Parameter values are read the way handlers read them: RouteParams.Get(name) where the name is unique in the route.'
+CONFIG['C05']['rule'] += ' Parameter values of unique names are read through denco.Params.Get(name) (Mux stream: all; Lookup stream: every other one).'
 # sub-checks: flows modelled under another property, run (and reported) under this one as well
 CONFIG['C04']['also'] = ['C03']   # typed parameters: what the handler gets for a number/integer text is C03's model (C04-m5)
 CONFIG['C01']['also'] = ['C09']   # the same dispatch under concurrent requests (shared lookup state) is C09's stream R / -race tier (C01-m7)
